@@ -194,7 +194,7 @@ impl Search<'_> {
                     self.chosen[pkg]
                 };
                 if let Some(t) = t {
-                    if !self.u.vsets[vs].matches.contains(&t) {
+                    if self.u.vsets[vs].matches.binary_search(&t).is_err() {
                         return false;
                     }
                 }
